@@ -45,9 +45,26 @@ def trie(cm, n_dicts, items, write_entry):
         states[s]["branch"] = True
         states[s]["out"] = [len(entries)]
         entries.append(ent)
+    # failure links and inherited outputs, as KyTea's Aho-Corasick dictionaries store them: a state's output list holds its
+    # own entry first (if it is a key) followed by the entries of the keys that are proper suffixes of its string
+    fail = [0] * len(states)
+    order = []
+    queue = list(states[0]["gotos"].values())
+    while queue:
+        s_ = queue.pop(0)
+        order.append(s_)
+        for c, nxt in states[s_]["gotos"].items():
+            f = fail[s_]
+            while f and c not in states[f]["gotos"]:
+                f = fail[f]
+            cand = states[f]["gotos"].get(c, 0)
+            fail[nxt] = cand if cand != nxt else 0
+            queue.append(nxt)
+    for s_ in order:
+        states[s_]["out"] = states[s_]["out"] + [o for o in states[fail[s_]]["out"] if o not in states[s_]["out"]]
     out = u8(n_dicts) + u32(len(states))
-    for st in states:
-        out += u32(0)                                   # failure link (not used by the reader)
+    for si, st in enumerate(states):
+        out += u32(fail[si])                            # failure link
         out += u32(len(st["gotos"]))
         # deliberately not sorted by character: the reader must not depend on the stored order
         for c, nxt in reversed(list(st["gotos"].items())):
@@ -75,7 +92,11 @@ def write(km):
     for w in km["words"]:
         chars.update(w["w"])
     chars.update([ord(c) for c in "DRHTKO"])
+    chars.discard(0)
     chars.update([0x540D, 0x8A5E])   # characters used by tag strings
+    # optional padding: unused characters in the character map shift every later file offset by one byte each
+    for k in range(km.get("pad", 0)):
+        chars.add(0x21 + k)
     cm = CharMap(sorted(chars))
     ntags = km.get("ntags", 0)
     out = b"KyTea 0.4.7 B UTF-8\n"
